@@ -187,6 +187,98 @@ theorem zero_grad_pinned_violates :
     (runRange Toy.intOps (fun _ => (1 : Int)) cfg batch init 0 2).theta = -3 := by
   decide
 
+/-! ## additional models (`self.models`), trailing iterations, OOM recovery -/
+
+/-- **What the optimiser receives when there are additional models** (e.g. `sensitivity_model`, whose parameters
+`direct/train.py` puts into the same optimiser): `training_loop` divides only `self.model.parameters()` by
+`gradient_steps`, so the main group gets the mean and the additional group the **sum** of the `k` batch gradients. -/
+theorem additional_models_receive_sum {H : Type} [AddCommGroup G] [Module ℚ G] [AddCommGroup H] [Module ℚ H]
+    (grad : P → B → G × H) (clip : G × H → G × H) (opt : L → P → O → G × H → P × O)
+    (lrAt : Nat → L) (cfg : Cfg) (batch : Nat → B) (s : St P O (G × H) Sc) (it0 : Nat)
+    (hk : 1 < cfg.k) (h0 : it0 % cfg.k = 0) (hg : s.grad = 0) :
+    let tot : G × H := ∑ j ∈ Finset.range cfg.k, grad s.theta (batch (it0 + j))
+    let g0 : G × H := (((cfg.k : ℚ))⁻¹ • tot.1, tot.2)
+    let g := if cfg.clipOn then clip g0 else g0
+    runRange (moduleOps2 grad clip opt) lrAt cfg batch s it0 cfg.k =
+      { theta := (opt (lrAt (s.epoch + cfg.k - 1)) s.theta s.ostate g).1,
+        ostate := (opt (lrAt (s.epoch + cfg.k - 1)) s.theta s.ostate g).2,
+        grad := 0, epoch := s.epoch + cfg.k, scaler := s.scaler } := by
+  intro tot g0 g
+  rw [accumulated_step (moduleOps2 grad clip opt) lrAt cfg batch s it0 (by omega) h0,
+    windowSum_eq_sum (moduleOps2 grad clip opt) rfl, hg, zero_add]
+  have hr : received (moduleOps2 grad clip opt) cfg
+      (∑ j ∈ Finset.range cfg.k, (moduleOps2 grad clip opt).grad s.theta (batch (it0 + j))) = g := by
+    simp [received, hk, moduleOps2, g, g0, tot]
+  simp only [stepWith, hr]
+  rfl
+
+/-- the property as stated fails for the additional group: `k = 2`, gradients 2 then 4 for both groups, lr 1:
+main parameter `−3` (mean), additional parameter `−6` (sum) -/
+theorem additional_models_violates :
+    let cfg : Cfg := { k := 2 }
+    let batch : Nat → Int := fun i => 2 * (i + 1)
+    let init : St (Int × Int) Unit (Int × Int) Unit := ⟨(0, 0), (), (0, 0), 0, ()⟩
+    (runRange Toy.intOps2 (fun _ => (1 : Int)) cfg batch init 0 2).theta = (-3, -6) := by
+  decide
+
+/-- **Iterations after the last complete window are never applied**: from a boundary with an empty accumulator,
+`k·m + r` iterations (`r < k`) leave the parameters, optimiser state of the `k·m`-iteration run; the last `r` batch
+gradients are pending in `.grad` (and are lost when training ends there), the schedule has advanced `r` more times. -/
+theorem trailing_iterations_pending (ops : Ops P O G B L) (lrAt : Nat → L) (cfg : Cfg) (batch : Nat → B)
+    (s : St P O G Sc) (it0 m r : Nat) (h0 : it0 % cfg.k = 0) (hr : r < cfg.k) (hg : s.grad = ops.zero) :
+    let s' := runRange ops lrAt cfg batch s it0 (cfg.k * m)
+    runRange ops lrAt cfg batch s it0 (cfg.k * m + r) =
+      { s' with grad := windowSum ops batch s'.theta (it0 + cfg.k * m) r ops.zero, epoch := s'.epoch + r } := by
+  intro s'
+  have hb : (it0 + cfg.k * m) % cfg.k = 0 := by rw [Nat.add_mod, h0, Nat.mul_mod_right]; simp
+  have hz : s'.grad = ops.zero := by
+    by_cases hm : cfg.k * m = 0
+    · simp only [s', hm]; exact hg
+    · exact runRange_grad_zero ops lrAt cfg batch s it0 (cfg.k * m) hb (by omega)
+  rw [runRange_add, runRange_no_boundary ops lrAt cfg batch s' (it0 + cfg.k * m) r
+    (fun j hj => mod_window cfg.k (it0 + cfg.k * m) 0 j hb (by omega)), hz]
+
+/-- **OOM recovery** (`zero_grad(); continue`): the skipped iteration changes neither parameters nor optimiser nor
+`last_epoch`, and empties the accumulator -/
+theorem oom_skip_state (ops : Ops P O G B L) (s : St P O G Sc) :
+    (oomSkip ops s).theta = s.theta ∧ (oomSkip ops s).ostate = s.ostate ∧ (oomSkip ops s).epoch = s.epoch ∧
+    (oomSkip ops s).grad = ops.zero := ⟨rfl, rfl, rfl, rfl⟩
+
+/-- … so the schedule lags: after `n` iterations of which `c` were skipped, `last_epoch = n − c` (the learning rate of
+iteration `i` is `lrAt (i − skips before i)`, not `lrAt i`) -/
+theorem oom_skip_schedule_lags (ops : Ops P O G B L) (lrAt : Nat → L) (cfg : Cfg) (batch : Nat → B)
+    (oom : Nat → Bool) (s : St P O G Sc) (a n : Nat) :
+    (runRangeO ops lrAt cfg batch oom s a n).epoch + oomCount oom a n = s.epoch + n :=
+  runRangeO_epoch ops lrAt cfg batch oom s a n
+
+/-- … and a skip inside a window loses the window's earlier batches: one OOM at iteration `it0 + j` of the window
+starting at the boundary `it0` (`j + 1 < k`): the step at the end of the window is taken on `div_(k)` of the sum of
+only the `k − j − 1` batches *after* the skip, at learning rate `lrAt (epoch + k − 2)` -/
+theorem oom_skip_mid_window (ops : Ops P O G B L) (lrAt : Nat → L) (cfg : Cfg) (batch : Nat → B)
+    (s : St P O G Sc) (it0 j : Nat) (h0 : it0 % cfg.k = 0) (hj : j + 1 < cfg.k) :
+    let oom : Nat → Bool := fun i => i == it0 + j
+    let s1 := oomSkip ops (runRange ops lrAt cfg batch s it0 j)
+    runRangeO ops lrAt cfg batch oom s it0 cfg.k =
+      stepWith ops lrAt cfg s1 (windowSum ops batch s1.theta (it0 + j + 1) (cfg.k - (j + 1)) ops.zero)
+        (s1.epoch + (cfg.k - (j + 1))) := by
+  intro oom s1
+  have e : cfg.k = j + 1 + (cfg.k - (j + 1)) := by omega
+  have h1 : runRangeO ops lrAt cfg batch oom s it0 (j + 1) = s1 := by
+    rw [runRangeO_succ, runRangeO_no_oom ops lrAt cfg batch oom s it0 j
+      (fun i hi => by simp only [oom, beq_eq_false_iff_ne, ne_eq]; omega)]
+    simp [oom, s1]
+  have h2 : runRangeO ops lrAt cfg batch oom s1 (it0 + (j + 1)) (cfg.k - (j + 1))
+      = runRange ops lrAt cfg batch s1 (it0 + (j + 1)) (cfg.k - (j + 1)) :=
+    runRangeO_no_oom ops lrAt cfg batch oom s1 _ _ (fun i hi => by simp only [oom, beq_eq_false_iff_ne, ne_eq]; omega)
+  conv => lhs; rw [e]
+  rw [runRangeO_add, h1, h2]
+  have hm : (it0 + (j + 1)) % cfg.k = j + 1 := by
+    rw [Nat.add_mod, h0, Nat.zero_add, Nat.mod_mod, Nat.mod_eq_of_lt hj]
+  have := runRange_first_step ops lrAt cfg batch s1 (it0 + (j + 1)) (j + 1) hm hj
+  rw [this]
+  have hs1 : s1.grad = ops.zero := rfl
+  rw [hs1, Nat.add_assoc]
+
 /-! ## non-vacuity: the hypotheses are satisfiable and the statements say something -/
 
 example : (runRange Toy.intOps (fun _ => (1 : Int)) { k := 3 } (fun i => 3 * (i + 1))
